@@ -5,7 +5,7 @@ For every entry: fresh scratch copy of the repository, the edit applied, `tools/
 private copy of lean/ (first failing theorem recorded), and — for mutations — `./check <property>` against the scratch
 copy (verdict line recorded).  Nothing in /repo or in this clone's lean/ is touched.
 
-usage: tools/tiea_mutations.py <workdir> [-j N] [--only id,id] [--no-check]
+usage: tools/tiea_mutations.py <workdir> [-j N] [--only id,id] [--no-check] [--round 2]
 """
 import argparse
 import json
@@ -17,6 +17,7 @@ import sys
 import time
 from concurrent.futures import ThreadPoolExecutor
 
+TARGET = 'Props.TieA'
 HERE = os.path.dirname(os.path.abspath(__file__))
 VERIF = os.path.dirname(HERE)
 REPO = os.environ.get('SEGNO_REPO', '/repo')
@@ -75,7 +76,89 @@ EDITS = [
 ]
 
 
+# ---------------------------------------------------------------- round 2 (Props.TieA2, docs/TRANSLATOR.md)
+E = 'segno/encoder.py'
+EDITS2 = [
+    ('M21', 'mutation', 'C04', E, 'for version in range(min_version, max_version + 1):', 'for version in range(min_version, max_version):',
+     'find_version: the last version (40 / M4) is never tried'),
+    ('M22', 'mutation', 'C04', E, "        if error is None and version != consts.VERSION_M1:\n            error = consts.ERROR_LEVEL_L",
+     "        if error is None and version != consts.VERSION_M2:\n            error = consts.ERROR_LEVEL_L",
+     'find_version: the default level L is set for M1 instead of M2'),
+    ('M23', 'mutation', 'C04', E, 'if consts.SYMBOL_CAPACITY[version][error] >= segments.bit_length_with_overhead(version, eci, is_sa):',
+     'if consts.SYMBOL_CAPACITY[version][error] > segments.bit_length_with_overhead(version, eci, is_sa):',
+     'find_version: a symbol that is filled exactly is skipped'),
+    ('M24', 'mutation', 'C05', E, "            if version < consts.VERSION_M4:\n                levels.pop()",
+     "            if version < consts.VERSION_M3:\n                levels.pop()", 'boost_error_level: level Q allowed for M3'),
+    ('M25', 'mutation', 'C05', E, 'if consts.SYMBOL_CAPACITY[version][error_level] >= data_length:',
+     'if consts.SYMBOL_CAPACITY[version][error_level] > data_length:', 'boost_error_level: no boost when the data fills the higher level exactly'),
+    ('M26', 'mutation', 'C05', E, 'for error_level in levels[levels.index(error) + 1:]:', 'for error_level in levels[levels.index(error) + 2:]:',
+     'boost_error_level: the next level is skipped'),
+    ('M27', 'mutation', 'C13', E, 'buff.extend([0] * min(capacity - length, consts.TERMINATOR_LENGTH[ver]))',
+     'buff.extend([0] * min(capacity - length - 1, consts.TERMINATOR_LENGTH[ver]))', 'write_terminator: one terminator bit less when the symbol is nearly full'),
+    ('M28', 'mutation', 'C13', E, 'buff.extend([0] * (8 - (length % 8)))', 'buff.extend([0] * (-length % 8))',
+     'write_padding_bits: finding D1 REPAIRED (no padding byte for an aligned stream) — the model describes the code as it is, the tie must break'),
+    ('M29', 'mutation', 'C13', E, 'pad_codewords = ((1, 1, 1, 0, 1, 1, 0, 0), (0, 0, 0, 1, 0, 0, 0, 1))',
+     'pad_codewords = ((0, 0, 0, 1, 0, 0, 0, 1), (1, 1, 1, 0, 1, 1, 0, 0))', 'write_pad_codewords: pad codewords in the wrong order'),
+    ('M30', 'mutation', 'C13', E, 'for i in range(capacity // 8 - length // 8):', 'for i in range(capacity // 8 - length // 8 - 1):',
+     'write_pad_codewords: one pad codeword too few'),
+    ('M31', 'mutation', 'C06', E, "                if n1_row_counter >= 5:\n                    score_n1 += n1_row_counter - 2\n                n1_row_counter = 1",
+     "                if n1_row_counter > 5:\n                    score_n1 += n1_row_counter - 2\n                n1_row_counter = 1",
+     'mask_scores: N1 ignores rows runs of exactly 5 modules'),
+    ('M32', 'mutation', 'C06', E, 'score_n2 += 3', 'score_n2 += 4', 'mask_scores: N2 weight 4'),
+    ('M33', 'mutation', 'C06', E, 'idx = seq.find(n3_pattern, idx + 4)', 'idx = seq.find(n3_pattern, idx + 7)',
+     'mask_scores: overlapping 1:1:3:1:1 patterns are not counted'),
+    ('M34', 'mutation', 'C06', E, 'score_n4 = 10 * int(abs(percent * 100 - 50) / 5)', 'score_n4 = 10 * int(abs(percent * 100 - 50) / 10)',
+     'mask_scores: N4 in steps of 10 %'),
+    ('M35', 'mutation', 'C06', E, 'return sum1 * 16 + sum2 if sum1 <= sum2 else sum2 * 16 + sum1', 'return sum1 * 16 + sum2 if sum1 >= sum2 else sum2 * 16 + sum1',
+     'evaluate_micro_mask: the larger sum is weighted'),
+    ('M36', 'mutation', 'C02', E, 'if i == 6 and not is_micro:  # Timing pattern', 'if i == 7 and not is_micro:  # Timing pattern',
+     'add_format_info: the timing pattern is skipped one module too late'),
+    ('M37', 'mutation', 'C02', E, "        matrix[-11][i] = bit1\n        matrix[-10][i] = bit2\n        matrix[-9][i] = bit3",
+     "        matrix[-11][i] = bit3\n        matrix[-10][i] = bit2\n        matrix[-9][i] = bit1", 'add_version_info: lower left block mirrored'),
+    ('M38', 'mutation', 'C02', E, 'offset = 1 if i == 0 else 0', 'offset = 1', 'add_finder_patterns: the bottom left finder pattern is shifted by one row'),
+    ('M39', 'mutation', 'C02', E, "        if (x, y) in finder_positions:\n            continue", "        if (x, y) in finder_positions[:2]:\n            continue",
+     'add_alignment_patterns: an alignment pattern over the bottom left finder pattern'),
+    ('M40', 'mutation', 'C07', E, 'if not (0x8140 <= code <= 0x9ffc or 0xe040 <= code <= 0xebbf):', 'if not (0x8140 <= code <= 0x9ffc or 0xe040 <= code <= 0xeaa4):',
+     'is_kanji: the upper Shift JIS range cut at 0xeaa4'),
+    ('M41', 'mutation', 'C02', E, "        col[i] = bit\n        bit ^= 0x1", "        col[i] = bit\n        bit = 0x1", 'add_timing_pattern: no alternation'),
+    ('M42', 'mutation', 'C03', E, 'error_block[k + n + 1] ^= gen_exp[lcoef + gen[n]]', 'error_block[k + n] ^= gen_exp[lcoef + gen[n]]',
+     'make_blocks: the synthetic division is shifted by one position'),
+    ('M43', 'mutation', 'C13', E, 'if version in (2, 3, 4, 5, 6):', 'if version in (2, 3, 4, 5):', 'make_final_message: version 6 gets no remainder bits'),
+    ('M44', 'mutation', 'C03', E, 'return ((val >> i) & 1 for i in reversed(range(length)))', 'return ((val >> i) & 1 for i in range(length))',
+     'make_final_message.to_binary: least significant bit first'),
+    ('H21', 'harmless', 'C04', E, None, None, 'find_version: local `micro_allowed` renamed to `allow_micro`'),
+    ('H22', 'harmless', 'C04', E, "    min_version = consts.VERSION_M1 if micro_allowed else 1\n    max_version = consts.VERSION_M4 if micro else 40\n",
+     "    max_version = consts.VERSION_M4 if micro else 40\n    min_version = consts.VERSION_M1 if micro_allowed else 1\n",
+     'find_version: two independent assignments swapped'),
+    ('H23', 'harmless', 'C05', E, '        if version < 1:\n            levels.pop()  # H', '        if 1 > version:\n            levels.pop()  # H',
+     'boost_error_level: `version < 1` written `1 > version`'),
+    ('H24', 'harmless', 'C13', E, None, None, 'write_pad_codewords: local `pad_codewords` renamed to `pads`, `write` to `put`'),
+    ('H25', 'harmless', 'C06', E, "        if n1_row_counter >= 5:\n            score_n1 += n1_row_counter - 2\n        if n1_col_counter >= 5:",
+     "        if 5 <= n1_row_counter:\n            score_n1 += n1_row_counter - 2\n        if n1_col_counter >= 5:",
+     'mask_scores: `n1_row_counter >= 5` written `5 <= n1_row_counter` (after the inner loop)'),
+    ('H26', 'harmless', 'C06', E, None, None, 'mask_scores: locals `row_current_bit` / `col_current_bit` renamed to `rbit` / `cbit`'),
+    ('H27', 'harmless', 'C07', E, 'if not data_len or data_len % 2:', 'if data_len == 0 or data_len % 2 != 0:',
+     'is_kanji: truthiness tests written as comparisons'),
+    ('H28', 'harmless', 'C02', E, "        bit1 = (version_info >> (i * 3)) & 0x01\n        bit2 = (version_info >> ((i * 3) + 1)) & 0x01\n",
+     "        bit2 = (version_info >> ((i * 3) + 1)) & 0x01\n        bit1 = (version_info >> (i * 3)) & 0x01\n",
+     'add_version_info: two independent assignments swapped'),
+    ('H29', 'harmless', 'C13', E, 'if version not in (consts.VERSION_M1, consts.VERSION_M3):\n        buff.extend',
+     'if version != consts.VERSION_M1 and version != consts.VERSION_M3:\n        buff.extend',
+     'write_padding_bits: `not in (a, b)` written as two inequalities'),
+]
+
+
 def special(eid, src):
+    if eid in ('H21', 'H24', 'H26'):
+        fn, pairs = {'H21': ('find_version', [('micro_allowed', 'allow_micro')]),
+                     'H24': ('write_pad_codewords', [('pad_codewords', 'pads'), ('write', 'put')]),
+                     'H26': ('mask_scores', [('row_current_bit', 'rbit'), ('col_current_bit', 'cbit')])}[eid]
+        a = src.index(f'def {fn}(')
+        b = src.index('\ndef ', a + 1)
+        body = src[a:b]
+        for x, y in pairs:
+            body = re.sub(r'\b%s\b' % x, y, body)
+        return src[:a] + body + src[b:]
     if eid == 'H01':
         a = src.index('def calc_format_info(')
         b = src.index('def add_format_info(')
@@ -136,7 +219,7 @@ def one(edit, work, do_check):
     t0 = time.time()
     rc, out = run(['/venv/bin/python', os.path.join(HERE, 'gen.py'), repo, lean])
     res['gen'] = ' | '.join(l for l in out.strip().split('\n') if l.startswith('gen:'))[-300:]
-    rc, out = run(['lake', 'build', 'Props.TieA'], cwd=lean)
+    rc, out = run(['lake', 'build', TARGET], cwd=lean)
     res['tiea_build'] = 'ok' if rc == 0 else 'FAILS'
     res['tiea_failing'] = failing_theorems(out, lean) if rc else []
     res['tiea_s'] = round(time.time() - t0, 1)
@@ -161,14 +244,17 @@ def main():
     ap.add_argument('-j', type=int, default=4)
     ap.add_argument('--only')
     ap.add_argument('--no-check', action='store_true')
+    ap.add_argument('--round', type=int, default=1, help='1: Props.TieA (EDITS), 2: Props.TieA2 (EDITS2)')
     a = ap.parse_args()
-    edits = [e for e in EDITS if not a.only or e[0] in a.only.split(',')]
+    global TARGET
+    TARGET = 'Props.TieA' if a.round == 1 else 'Props.TieA2'
+    edits = [e for e in (EDITS if a.round == 1 else EDITS2) if not a.only or e[0] in a.only.split(',')]
     os.makedirs(a.work, exist_ok=True)
     with ThreadPoolExecutor(a.j) as ex:
         results = list(ex.map(lambda e: one(e, a.work, not a.no_check), edits))
     print()
     for r in results:
-        line = f"{r['id']} [{r['kind']}, {r['property']}] {r['what']}: Props.TieA {r['tiea_build']}"
+        line = f"{r['id']} [{r['kind']}, {r['property']}] {r['what']}: {TARGET} {r['tiea_build']}"
         if r['tiea_failing']:
             line += ' at ' + ', '.join(r['tiea_failing'][:4])
         if 'check_exit' in r:
